@@ -33,9 +33,9 @@ TRUSTED = ['correspondence: harness/props/c06.py + harness/world.py + harness/re
            'zlib as the independent RFC 7692 peer and as the judge of the bit-level inflater']
 ASSUMPTIONS = ['zlib deflate with window 2^w only emits matches with distance <= 2^w - 262 and within the data it has seen (measured on every compressed message of every run)',
                'zlib sync-flush output ends in 00 00 ff ff (asserted on every message)',
-               'the bit-level inflater in Model/Inflate.lean is proved correct for stored, fixed-Huffman and dynamic-Huffman blocks (canonical codes of any complete code lengths, lengths sent without repeat codes) '
-               'against the reference encoder of Model/DeflEnc.lean (Properties/C06_Inflate.lean; the encoder is validated against zlib here); dynamic headers with repeat codes / other code-length codes, '
-               'incomplete codes and all error paths are validated against zlib only; '
+               'the bit-level inflater in Model/Inflate.lean is proved correct for stored, fixed-Huffman and dynamic-Huffman blocks (canonical codes of any complete code lengths; the lengths sent one by one or as any sequence of code-length symbols with the repeat codes 16/17/18, in any complete code-length code, any HCLEN) '
+               'against the reference encoder of Model/DeflEnc.lean (Properties/C06_Inflate.lean, C06_InflateRle.lean; the encoder is validated against zlib here); '
+               'incomplete / over-subscribed codes and all error paths are validated against zlib only; '
                'its window rule is the strict RFC one (distance <= 2^wbits) where zlib is more lenient inside one inflate() call',
                'single-threaded use (concurrent compressed sends belong to C11)']
 
@@ -515,14 +515,19 @@ def _blk_spec(b):
     elif k is False:
         k = 'f'
     hd = '%s%d' % (k, 1 if fin else 0)
-    if k == 'd':
+    if k in ('d', 'R'):
         ll, dl = b[3]
         hd += ';' + ''.join('%x' % l for l in ll) + ';' + ''.join('%x' % l for l in dl)
+    elif k == 'r':
+        cll, nc, nl, items = b[3]
+        hd += ';' + ''.join('%x' % l for l in cll) + ';%d;%d;' % (nc, nl) + '.'.join('%s%d' % it for it in items)
     return hd + ':' + ','.join(_tok_spec(t) for t in toks)
 
 
 def _msg_spec(blocks):
-    """blocks: list of (kind 's'|'f'|'d', final?, tokens[, (ll, dl)])"""
+    """blocks: list of (kind 's'|'f'|'d'|'R'|'r', final?, tokens[, (ll, dl) | (cll, nc, nl, items)]):
+       'R' = dynamic, the code lengths run-length coded by the Lean encoder's own `rle` in its default code-length code;
+       'r' = dynamic, the header given as code-length items (refcodec.rle_items) + code-length code + HCLEN"""
     if not blocks:
         return '-'
     return '/'.join(_blk_spec(b) for b in blocks)
@@ -549,6 +554,35 @@ def _dyn_ok(ll, dl, toks):
     return True
 
 
+CL_DEFAULT = [4] * 13 + [5] * 6
+
+
+def _cl_ok(cll, nc):
+    """19 lengths 0..7 of a complete code-length code, 4..19 of them sent, those not sent are 0 (RFC 1951 3.2.7)"""
+    return (len(cll) == 19 and all(l <= 7 for l in cll) and sum(1 << (15 - l) for l in cll if l) == 1 << 15 and
+            4 <= nc <= 19 and all(cll[refcodec._CLORDER[k]] == 0 for k in range(nc, 19)))
+
+
+def _rle_ok(cll, nc, nl, items, toks):
+    if not _cl_ok(cll, nc):
+        return False
+    if not all(refcodec.item_in_range(it) and cll[refcodec.item_symbol(it)] >= 1 for it in items):
+        return False
+    lens = refcodec.expand_items(items)
+    if lens is None:
+        return False
+    return _dyn_ok(lens[:nl], lens[nl:], toks)
+
+
+def _written_dynamic(b):
+    """is this block written as a dynamic block (else: the fixed-Huffman fallback)?"""
+    if b[0] in ('d', 'R'):
+        return _dyn_ok(b[3][0], b[3][1], b[2])
+    if b[0] == 'r':
+        return _rle_ok(b[3][0], b[3][1], b[3][2], b[3][3], b[2])
+    return False
+
+
 def _ref_encode(blocks):
     """the same message through the independent Python bit writer of refcodec.py (payload without the tail);
        also which of the dynamic blocks are written as such"""
@@ -564,8 +598,19 @@ def _ref_encode(blocks):
             ll, dl = b[3]
             refcodec.put_dynamic_header(bw, ll, dl, fin, use_repeats=False, cl_lens=CL_LENS)
             refcodec.put_tokens(bw, toks, refcodec.canonical_codes(ll), refcodec.canonical_codes(dl))
+        elif st == 'R' and _written_dynamic(b):
+            dyn += '1'
+            ll, dl = b[3]
+            refcodec.put_dynamic_header_items(bw, len(ll), len(dl), refcodec.rle_items(list(ll) + list(dl)), CL_DEFAULT, 19, fin)
+            refcodec.put_tokens(bw, toks, refcodec.canonical_codes(ll), refcodec.canonical_codes(dl))
+        elif st == 'r' and _written_dynamic(b):
+            dyn += '1'
+            cll, nc, nl, items = b[3]
+            lens = refcodec.expand_items(items)
+            refcodec.put_dynamic_header_items(bw, nl, len(lens) - nl, items, cll, nc, fin)
+            refcodec.put_tokens(bw, toks, refcodec.canonical_codes(lens[:nl]), refcodec.canonical_codes(lens[nl:]))
         else:
-            if st == 'd':
+            if st in ('d', 'R', 'r'):
                 dyn += '0'
             refcodec.put_fixed_block(bw, toks, fin)
         if fin:
@@ -593,8 +638,52 @@ def encoder_cases(rng, tier):
     def dyn(fin, toks, flat=False):
         return ('d', fin, toks, dyn_lens(toks, flat))
 
+    def pad_lens(ll, dl):
+        """the same codes announced with more symbols: trailing zeros (and so zero runs across the HLIT/HDIST boundary)"""
+        ll, dl = list(ll), list(dl)
+        if rng.random() < 0.4:
+            ll += [0] * rng.randint(0, 286 - len(ll))
+        if rng.random() < 0.4:
+            dl += [0] * rng.randint(0, 30 - len(dl))
+        return ll, dl
+
+    def rle_block(fin, toks, ll, dl, greedy, nc_min=True, extra_sym=False):
+        """kind 'r': items from the independent run-length coder (greedy, or a random legal segmentation), the
+           code-length code from the item frequencies, HCLEN minimal or larger"""
+        items = refcodec.rle_items(list(ll) + list(dl), None if greedy else rng)
+        f = [0] * 19
+        for it in items:
+            f[refcodec.item_symbol(it)] += 1
+        while sum(1 for x in f if x) < 2:
+            f[rng.randrange(19)] += 1
+        if extra_sym:
+            f[rng.randrange(19)] += 1
+        cll = refcodec.huff_lengths(f, 7)
+        ncmin = max(4, max(k + 1 for k in range(19) if cll[refcodec._CLORDER[k]]))
+        nc = ncmin if nc_min else rng.randint(ncmin, 19)
+        return ('r', fin, toks, (cll, nc, len(ll), items))
+
+    def spoil(b):
+        """an 'r' block that must NOT be written as such (falls back to fixed)"""
+        cll, nc, nl, items = b[3]
+        cll, items = list(cll), list(items)
+        r = rng.randrange(6)
+        if r == 0:
+            items[rng.randrange(len(items))] = rng.choice([('b', 2), ('b', 11), ('c', 10), ('c', 139), ('a', 2), ('a', 7), ('l', 16)])
+        elif r == 1:
+            cll[refcodec.item_symbol(rng.choice(items))] = 0           # an item without a code word (and an incomplete code)
+        elif r == 2:
+            nc = max(4, nc - 1) if nc > 4 else 3                          # a non-zero length not sent / HCLEN out of range
+        elif r == 3:
+            items = [('a', 3)] + items                                    # symbol 16 first: no previous length
+        elif r == 4:
+            items = items[:-1] if rng.random() < 0.5 else items + [('c', 11)]      # the wrong number of lengths
+        else:
+            cll = [min(7, l + 1) if l else 0 for l in cll]               # an incomplete code-length code
+        return ('r', b[1], b[2], (cll, nc, nl, items))
+
     def rand_block(have, w, allow_final=True):
-        k = rng.choice(['s', 'f', 'f', 'd', 'd'])
+        k = rng.choice(['s', 'f', 'f', 'd', 'd', 'R', 'r', 'r'])
         fin = allow_final and rng.random() < 0.15
         n = rng.choice([0, 1, 2, 5, 20, 60])
         if k == 's' and rng.random() < 0.7:
@@ -602,6 +691,12 @@ def encoder_cases(rng, tier):
         else:
             toks, _ = random_tokens(rng, n, have)
             toks = [t if isinstance(t, int) else (min(t[0], 1 << w), t[1]) for t in toks]
+        if k in ('R', 'r'):
+            ll, dl = pad_lens(*dyn_lens(toks, rng.random() < 0.3))
+            if k == 'R':
+                return ('R', fin, toks, (ll, dl))
+            b = rle_block(fin, toks, ll, dl, greedy=rng.random() < 0.3, nc_min=rng.random() < 0.6, extra_sym=rng.random() < 0.3)
+            return spoil(b) if rng.random() < 0.12 else b
         if k == 'd':
             r = rng.random()
             if r < 0.85:
@@ -674,6 +769,36 @@ def encoder_cases(rng, tier):
     b15 = dyn(False, skew)
     assert max(b15[3][0]) == 15, max(b15[3][0])
     cases.append(('dynamic-15-bit-codes', 15, [[b15]], True))
+    # 6c. headers with the repeat codes 16 / 17 / 18: runs of exactly 3, 6, 7, 10, 11, 138, 139 zeros; runs of 3, 4, 7
+    #     (and 6, 8, 10) equal non-zero lengths; zero and non-zero runs across the HLIT/HDIST boundary; each through the
+    #     Lean encoder's own `rle` ('R'), the independent greedy coder and random legal segmentations ('r')
+    def all_forms(kind, toks, ll, dl, pre=()):
+        for fin in (False, True):
+            forms = [('R', fin, toks, (ll, dl)), ('d', fin, toks, (ll, dl)), rle_block(fin, toks, ll, dl, greedy=True)]
+            forms += [rle_block(fin, toks, ll, dl, greedy=False, nc_min=rng.random() < 0.5, extra_sym=rng.random() < 0.5)
+                      for _ in range(3 if quick else 12)]
+            cases.append((kind, 15, [[('f', False, list(pre))] if pre else []] + [[b] for b in forms], True))
+    za = [0, 4, 11, 19, 30, 42, 181]                     # gaps of 3, 6, 7, 10, 11, 138 zeros (then 74 up to end-of-block)
+    all_forms('rle-zero-runs-3-6-7-10-11-138', za, *dyn_lens(za))
+    all_forms('rle-zero-run-139', [0, 140], *dyn_lens([0, 140]))
+    l4 = [0] * 258
+    for i in list(range(0, 3)) + list(range(10, 14)) + list(range(20, 27)) + [256, 257]:
+        l4[i] = 4                                        # sixteen 4-bit codes: runs of 3, 4, 7 and 256..257
+    t4 = [i for i in range(256) if l4[i]] + [(1, 3)]
+    all_forms('rle-same-runs-3-4-7+crossing-18', t4, l4, [4] * 16)                       # 257, 256 and 16 distance lengths: one run of 18
+    all_forms('rle-zero-run-crossing', t4, l4 + [0] * 12, [0, 0, 0] + [4] * 16)         # 12 + 3 zeros across the boundary
+    all_forms('rle-zero-run-138-crossing', t4, l4 + [0] * 28, [0] * 14 + [4] * 16)      # 28 + 14 zeros across the boundary
+    l5 = [0] * 263
+    for i in list(range(0, 6)) + list(range(10, 18)) + list(range(30, 40)) + [100] + list(range(256, 263)):
+        l5[i] = 5                                        # thirty-two 5-bit codes: runs of 6, 8, 10, 1 and 256..262
+    t5 = [i for i in range(256) if l5[i]] + [(1, n) for n in range(3, 9)]
+    all_forms('rle-same-runs-6-8-10+crossing-23', t5, l5, [5] * 16 + [4] * 8)
+    all_forms('rle-longest-header', list(range(256)), *dyn_lens(list(range(256)) + [(d, n) for d in DBASE for n in LBASE], flat=True),
+              pre=[1] * 4)
+    for _ in range(20 if quick else 200):                 # 'r' blocks that must fall back to fixed, one by one
+        toks, _ = random_tokens(rng, rng.choice([1, 5, 30]), 0)
+        b = rle_block(False, toks, *pad_lens(*dyn_lens(toks)), greedy=rng.random() < 0.5)
+        cases.append(('rle-refused', 15, [[spoil(b)]], True))
     # 7. invalid: a distance that reaches before the start of the history
     for _ in range(40 if quick else 300):
         w = rng.randint(9, 15)
@@ -736,7 +861,24 @@ def check_encoder(res, rng, tier, model_ok):
         res.count('deflenc:blocks-stored', sum(1 for m in msgs for b in m if _is_stored(b)))
         res.count('deflenc:blocks-dynamic', sum(1 for m in msgs for b in m if b[0] == 'd' and _dyn_ok(b[3][0], b[3][1], b[2])))
         res.count('deflenc:blocks-dynamic-refused-lens', sum(1 for m in msgs for b in m if b[0] == 'd' and not _dyn_ok(b[3][0], b[3][1], b[2])))
-        res.count('deflenc:blocks-fixed', sum(1 for m in msgs for b in m if not _is_stored(b) and not (b[0] == 'd' and _dyn_ok(b[3][0], b[3][1], b[2]))))
+        res.count('deflenc:blocks-dynamic-rle(lean-rle)', sum(1 for m in msgs for b in m if b[0] == 'R' and _written_dynamic(b)))
+        res.count('deflenc:blocks-dynamic-rle(items)', sum(1 for m in msgs for b in m if b[0] == 'r' and _written_dynamic(b)))
+        res.count('deflenc:blocks-dynamic-rle-refused', sum(1 for m in msgs for b in m if b[0] in ('R', 'r') and not _written_dynamic(b)))
+        for m in msgs:
+            for b in m:
+                if b[0] == 'r' and _written_dynamic(b):
+                    for it in b[3][3]:
+                        if it[0] != 'l':
+                            res.count('deflenc:rle-items-sym%d' % refcodec.item_symbol(it))
+                    lens = refcodec.expand_items(b[3][3])
+                    pos = 0
+                    for it in b[3][3]:
+                        n = 1 if it[0] == 'l' else it[1]
+                        if pos < b[3][2] < pos + n:
+                            res.count('deflenc:rle-run-across-hlit-hdist-boundary')
+                        pos += n
+                    res.count('deflenc:rle-hclen-%s' % ('minimal' if b[3][1] == max(4, max(k + 1 for k in range(19) if b[3][0][refcodec._CLORDER[k]])) else 'longer'))
+        res.count('deflenc:blocks-fixed', sum(1 for m in msgs for b in m if not _is_stored(b) and not _written_dynamic(b)))
         res.count('deflenc:blocks-final', sum(1 for m in msgs for b in m if b[1]))
         res.count('deflenc:matches', sum(1 for m in msgs for b in m for t in b[2] if not isinstance(t, int)))
         res.traces_validated += 1
@@ -768,6 +910,7 @@ def check_encoder(res, rng, tier, model_ok):
     res.exhaustive['deflenc_all_match_lengths_3_258'] = 256
     res.exhaustive['deflenc_all_literals'] = 256
     res.exhaustive['deflenc_distance_code_boundaries'] = 62
+    res.exhaustive['deflenc_rle_run_lengths_3_6_7_10_11_138_139'] = 7
     res.notes.append('reference encoder (Model/DeflEnc.lean) validated against zlib on %d histories / %d messages' % (len(cases), len(lines)))
     res.samples += ['deflenc f0:L72,L101,L108,L108,L111', 'deflenc s0:L72,L105/f1:L33,C1.258,C3.100/f0:L1',
                     'deflenc ' + _msg_spec([('d', False, [65, 66, 65, (2, 3)], dyn_lens([65, 66, 65, (2, 3)]))])]
@@ -1575,7 +1718,7 @@ def explore(res, tier, seed, model_ok=True):
     rng = random.Random(seed)
     res.rule = ('A: zlib streams (levels 0/1/6/9 x 5 strategies x windows 9..15 x sync/full/partial/block flush sequences), hand-encoded stored/fixed/dynamic blocks incl. '
                 'odd code sets, every truncation, corruptions, BFINAL + trailing data, distances at the window edge: Lean inflater vs zlib. '
-                'A\'\': random histories of messages of stored / fixed / dynamic (complete code lengths from the token frequencies, also flat and up to 15 bits, also invalid lengths) blocks of LZ77 tokens (all literals, all lengths 3..258, every distance-code boundary up to 32768, '
+                'A\'\': random histories of messages of stored / fixed / dynamic (complete code lengths from the token frequencies, also flat and up to 15 bits, also invalid lengths) blocks - the dynamic headers written plainly, run-length coded by the encoder itself (rle), or as items (repeat codes 16/17/18: greedy and random legal segmentations; runs of exactly 3/6/7/10/11/138/139; runs across the HLIT/HDIST boundary; code-length code from the item frequencies; HCLEN minimal or longer; refused headers) - of LZ77 tokens (all literals, all lengths 3..258, every distance-code boundary up to 32768, '
                 'overlapping matches, window edges, BFINAL anywhere, distances too far back) through the Lean reference ENCODER (deflenc): its output vs an independent bit writer and vs REAL zlib inflate = the LZ77 expansion. '
                 'B: every value spelling x both keys x separators, all 256 parameter combinations: real parser vs model vs RFC 7692. '
                 'C/D: %s configurations x {long-range repeats at distances around 250/256/506/512/2^w-262/2^w/32768, incompressible, small+empty+repeated, > window} '
